@@ -22,6 +22,7 @@ CONSTANTS
   Creators = {"u1"}
 VIEW View
 INVARIANTS
+  Inv_C12_Farm_Accepted
   Inv_C05_StakeSum
   Inv_C05_Escrow
   Inv_C06_Budget
@@ -30,6 +31,7 @@ INVARIANTS
   Inv_C13_QueueSound
   Inv_C13_QueueComplete
 PROPERTIES
+  Act_C12_Farm_Queue
   Act_C05_UnstakeNeverFails_ModF2
   Act_C05_UnstakeExact
   Act_C05_StakeExact
